@@ -78,14 +78,17 @@ func helperFuncs(p *load.Program) []*ssa.Function {
 }
 
 func runC08(c *core.Ctx) {
-	runFixtures(c, "drop")
-	c.Explain("Structural clauses of C08 decided from source for every package-level helper of hackpadfs whose first parameter is an FS or a File (and the unexported functions only they reach): (R08.1) for every call that returns an error — other helpers, interface methods, File methods — on every path on which that error is non-nil the helper returns it, wraps it, hands it on, returns another definitely non-nil error, or consumes it through an enumerated idiom (errors.Is(ErrNotExist) inside RemoveAll's recursion, errors.Is(ErrExist) inside MkdirAll, errors.Is(ErrNotImplemented) to try the next capability, closing a read-only handle); a nil/may-be-nil return on such a path is a violation ('a helper never reports success for work that was not done'); (R08.3) the path on which every capability assertion of a helper failed returns a *PathError/*LinkError carrying ErrNotImplemented or enters the documented fallback; (R08.4, contradiction rule) inside one helper all calls of the same fallible callee consult the same sentinels (errors.Is) on its error — if one Mkdir site tolerates ErrExist and another returns it, the fallback answers 'already there' differently from the optimised implementation; (R08.5, sibling agreement) a mode/flag/perm/time parameter of a helper reaches every delegate that receives it as the parameter itself — a branch that passes 'mode & K' where its siblings pass 'mode' makes the result depend on the capability subset; (R08.6) the recursive removal behind RemoveAll takes its 'is a directory' decision from Lstat/LstatOrStat, never from Stat; (R08.7) among the helpers that take a File only SeekFile invokes Seek (no positioned operation is emulated by moving the handle's position). NOT claimed: equality of results and final state between the optimised path and the fallback across the 2^k capability subsets.")
+	runFixtures(c, "drop", "read")
+	c.Explain("Structural clauses of C08 decided from source for every package-level helper of hackpadfs whose first parameter is an FS or a File (and the unexported functions only they reach): (R08.1) for every call that returns an error — other helpers, interface methods, File methods — on every path on which that error is non-nil the helper returns it, wraps it, hands it on, returns another definitely non-nil error, or consumes it through an enumerated idiom (errors.Is(ErrNotExist) inside RemoveAll's recursion, errors.Is(ErrExist) inside MkdirAll, errors.Is(ErrNotImplemented) to try the next capability, closing a read-only handle); a nil/may-be-nil return on such a path is a violation ('a helper never reports success for work that was not done'); (R08.3) the path on which every capability assertion of a helper failed returns a *PathError/*LinkError carrying ErrNotImplemented or enters the documented fallback; (R08.4, contradiction rule) inside one helper all calls of the same fallible callee consult the same sentinels (errors.Is) on its error — if one Mkdir site tolerates ErrExist and another returns it, the fallback answers 'already there' differently from the optimised implementation; (R08.5, sibling agreement) a mode/flag/perm/time parameter of a helper reaches every delegate that receives it as the parameter itself — a branch that passes 'mode & K' where its siblings pass 'mode' makes the result depend on the capability subset; (R08.6) the recursive removal behind RemoveAll takes its 'is a directory' decision from Lstat/LstatOrStat, never from Stat; (R08.7) among the helpers that take a File only SeekFile invokes Seek (no positioned operation is emulated by moving the handle's position). (R08.8) in the helper OpenFile every call of fs.Open is dominated by the test flag == FlagReadOnly (a mask test forgets the flags outside the mask); (R08.10) every sub-path the generic Sub view returns is the name itself, the base, or path.Join of them; (R08.9) every direct call of a Read([]byte)(int, error) method in the package is a delegation that hands the count to its caller, or sits in a loop that is left only on an error / a full buffer and whose successful returns looked at the count of the latest Read — a helper that replaces io/fs.ReadFile or io.Copy by one sized Read reports success for content it did not read. NOT claimed: equality of results and final state between the optimised path and the fallback across the 2^k capability subsets.")
 	c.Assume("A1: interface-dispatched FS/File methods return nil error only when the operation was done", "A6: partial correctness")
 	c.RuleDoc("R08.1", "no primitive error dropped on any failing path of a helper")
 	c.RuleDoc("R08.4", "sibling calls of one callee inside a helper consult the same sentinels")
 	c.RuleDoc("R08.5", "a non-name parameter reaches every delegate of a helper in the same form")
 	c.RuleDoc("R08.6", "recursive removal classifies entries without following symbolic links")
 	c.RuleDoc("R08.7", "only SeekFile moves a file's position")
+	c.RuleDoc("R08.8", "OpenFile falls back to Open only for flag == FlagReadOnly")
+	c.RuleDoc("R08.10", "the fallback Sub view joins base and name with path.Join")
+	c.RuleDoc("R08.9", "no helper takes one Read, or a short count, for the whole content")
 	c.RuleDoc("R08.3", "all-capabilities-missing path returns ErrNotImplemented or enters the fallback")
 	for _, p := range c.Progs {
 		c.SetProg(p)
@@ -149,6 +152,9 @@ func runC08(c *core.Ctx) {
 		r08ParamForms(c, p, helpers)
 		r08NoFollow(c, p, removeAllCtx)
 		r08NoSeekEmulation(c, p, helpers)
+		readDiscipline(c, p, "R08.9", pkgFuncs(p, ""))
+		r08OpenFallback(c, p)
+		r08SubViewJoins(c, p, "R08.10")
 	}
 	c.Floor("R08.1", 40)
 	c.Floor("R08.3", 25)
@@ -156,6 +162,8 @@ func runC08(c *core.Ctx) {
 	c.Floor("R08.5", 10)
 	c.Floor("R08.6", 1)
 	c.Floor("R08.7", 8)
+	c.Floor("R08.8", 1)
+	c.Floor("R08.10", 2)
 }
 
 // r08NotImplemented: (also R05.4) in each helper, the return reached when every type assertion failed.
@@ -455,5 +463,104 @@ func r08NoSeekEmulation(c *core.Ctx, p *load.Program, helpers []*ssa.Function) {
 		default:
 			c.OK("R08.7", key, p.Pos(fn.Pos()), "does not call Seek")
 		}
+	}
+}
+
+// r08OpenFallback (R08.8): the helper OpenFile may replace OpenFile(name, flag, perm) by Open(name) — which drops flag
+// and perm — only where flag is known to be exactly FlagReadOnly (== 0). A mask test ("nothing is written or
+// created") forgets the flags outside the mask (O_TRUNC, O_APPEND, O_SYNC, O_EXCL): the full file system truncates,
+// the subset without OpenFileFS returns a handle and nil with the file untouched.
+func r08OpenFallback(c *core.Ctx, p *load.Program) {
+	fn := p.Func("", "OpenFile")
+	if fn == nil || len(fn.Params) < 3 {
+		c.Hard("anchor: helper OpenFile")
+		return
+	}
+	flag := fn.Params[2]
+	ord := ordinals{}
+	n := 0
+	ssax.Instrs(fn, func(ins ssa.Instruction) {
+		cl, ok := ins.(ssa.CallInstruction)
+		if !ok || !cl.Common().IsInvoke() || cl.Common().Method.Name() != "Open" {
+			return
+		}
+		n++
+		key := fname(fn) + "|" + ord.next("open-only-for-flag-zero")
+		exact := false
+		for _, f := range ssax.FactsAtInstr(ins) {
+			bo, ok := f.Cond.(*ssa.BinOp)
+			if !ok {
+				continue
+			}
+			k, isK := ssax.ConstInt(bo.Y)
+			x := bo.X
+			if !isK {
+				k, isK = ssax.ConstInt(bo.X)
+				x = bo.Y
+			}
+			if isK && k == 0 && x == ssa.Value(flag) && (bo.Op == token.EQL && f.Val || bo.Op == token.NEQ && !f.Val) {
+				exact = true
+			}
+		}
+		c.Check(exact, "R08.8", key, p.Pos(ins.Pos()), "Open replaces OpenFile only where flag == FlagReadOnly",
+			fmt.Sprintf("%s calls fs.Open(name) — dropping flag and perm — at %s where flag is not known to be exactly FlagReadOnly: a flag outside the tested mask (FlagTruncate, FlagAppend, FlagExclusive) is silently ignored on file systems without OpenFileFS, the helper returns a handle and nil for work that was not done, while the full file system does it", fname(fn), p.Pos(ins.Pos())))
+	})
+	if n == 0 {
+		c.Hard("anchor: helper OpenFile no longer calls fs.Open")
+	}
+}
+
+// r08SubViewJoins (R08.10): the generic Sub view translates a name with path.Join(base, name); string concatenation is
+// wrong for the base "." (Sub(fs, ".") maps "f" to "./f", an invalid name: every helper on the fallback view fails
+// with ErrInvalid while a file system exposing SubFS serves the same view).
+func r08SubViewJoins(c *core.Ctx, p *load.Program, rule string) {
+	fn := p.Method("", "subFS", "Mount")
+	if fn == nil {
+		c.Hard("anchor: subFS.Mount")
+		return
+	}
+	ord := ordinals{}
+	n := 0
+	for _, r := range ssax.Returns(fn) {
+		if len(r.Results) != 2 {
+			continue
+		}
+		var leaves func(v ssa.Value, d int, seen map[ssa.Value]bool) []ssa.Value
+		leaves = func(v ssa.Value, d int, seen map[ssa.Value]bool) []ssa.Value {
+			if ph, ok := v.(*ssa.Phi); ok && d < 6 && !seen[v] {
+				seen[v] = true
+				var out []ssa.Value
+				for _, e := range ph.Edges {
+					out = append(out, leaves(e, d+1, seen)...)
+				}
+				return out
+			}
+			return []ssa.Value{v}
+		}
+		for _, v := range leaves(r.Results[1], 0, map[ssa.Value]bool{}) {
+			n++
+			key := fname(fn) + "|" + ord.next("sub-path")
+			switch x := v.(type) {
+			case *ssa.Parameter:
+				c.OKTrivial(rule, key, p.Pos(r.Pos()), "the name itself (an invalid name is handed on for the parent to refuse)")
+			case *ssa.Call:
+				if ssax.CalleeIs(x, "path", "Join") {
+					c.OK(rule, key, p.Pos(x.Pos()), "path.Join of the base and the name")
+					continue
+				}
+				c.Bad(rule, key, p.Pos(x.Pos()), fmt.Sprintf("%s computes the sub-path with %s instead of path.Join", fname(fn), ssax.CallName(x)))
+			case *ssa.BinOp:
+				c.Bad(rule, key, p.Pos(x.Pos()), fmt.Sprintf("%s glues the name onto the view's base with string concatenation instead of path.Join: for the base \".\" (Sub(fs, \".\"), Sub(Sub(fs, dir), \".\")) every name becomes \"./name\", which the parent rejects — every helper on the fallback view fails with ErrInvalid, while a file system exposing SubFS serves the same view", fname(fn)))
+			default:
+				if _, _, isField := ssax.FieldLoad(v); isField {
+					c.OK(rule, key, p.Pos(r.Pos()), "the base itself")
+					continue
+				}
+				c.Bad(rule, key, p.Pos(r.Pos()), fmt.Sprintf("%s returns a sub-path that is neither the name, the base nor path.Join of them", fname(fn)))
+			}
+		}
+	}
+	if n == 0 {
+		c.Hard("anchor: results of subFS.Mount")
 	}
 }
